@@ -437,9 +437,14 @@ fn c26_value_roundtrip_bytes() {
 
 #[kani::proof]
 #[kani::unwind(4)]
-fn c26_value_roundtrip_str() {
+fn c26_value_roundtrip_str_len01() {
     value_roundtrip(Sch::Str, 0);
     value_roundtrip(Sch::Str, 1);
+}
+
+#[kani::proof]
+#[kani::unwind(4)]
+fn c26_value_roundtrip_str_len2() {
     value_roundtrip(Sch::Str, 2);
 }
 
@@ -507,7 +512,7 @@ fn c26_value_bytes_id() {
     kani::cover!(seen == BAD_INPUT, "some input rejected: BadInput");
 }
 
-/// bytes / string: length prefix + payload of 0..=3 bytes.
+/// bytes: length prefix + payload of 0..=3 bytes; string: length prefix + payload of 0..=2 bytes.
 #[kani::proof]
 #[kani::unwind(5)]
 fn c26_value_bytes_bytes() {
@@ -519,7 +524,7 @@ fn c26_value_bytes_bytes() {
 #[kani::proof]
 #[kani::unwind(5)]
 fn c26_value_bytes_str() {
-    let seen = value_arbitrary_bytes::<4>(Sch::Str);
+    let seen = value_arbitrary_bytes::<3>(Sch::Str);
     kani::cover!(seen == ACCEPTED, "some input accepted");
     kani::cover!(seen == UNEXPECTED_END, "some input rejected: UnexpectedEnd");
     kani::cover!(seen == BAD_INPUT, "some input rejected: BadInput");
